@@ -379,6 +379,17 @@ def paths (w : World) : Nat → Nat → List Nat → List (List (Nat × Join) ×
           if j.other = d ∨ j.other ∈ G then []
           else (paths w fuel j.other (d :: G)).map fun p => ((d, j) :: p.1, p.2)
 
+/-- Declarative reading of `paths`: `JoinPath w d G steps e` — starting at dataset `d` (flags `G`),
+`steps` is a simple join path (never re-entering a dataset already on it, nor one in `G`) through
+datasets that cannot evaluate the selection, ending at the dataset `e` that can.
+(`Props.C11.paths_iff_joinPath`: `paths` enumerates exactly these.) -/
+inductive JoinPath (w : World) : Nat → List Nat → List (Nat × Join) → Nat → Prop
+  | here (d : Nat) (G : List Nat) (ds : Dataset) (m : List Bool) :
+      w[d]? = some ds → ds.ownMask = some m → JoinPath w d G [] d
+  | step (d : Nat) (G : List Nat) (ds : Dataset) (j : Join) (steps : List (Nat × Join)) (e : Nat) :
+      w[d]? = some ds → ds.ownMask = none → j ∈ ds.joins → j.other ≠ d → j.other ∉ G →
+      JoinPath w j.other (d :: G) steps e → JoinPath w d G ((d, j) :: steps) e
+
 /-- The mask obtained by propagating the evaluator's own mask back along the path, one join
 step at a time (the view applies to the first dataset only). -/
 def along (jm : JoinMaskFn) (w : World) : List (Nat × Join) → Nat → View → Res
